@@ -138,6 +138,22 @@ def templates():
     a(T("set-of-set", "println(set(S));", "render.set"))
     a(T("map-of-map", "println(map(M));", "render.map"))
     a(T("list-plus-set", "println([] + S);", "aslist.set", "aslist.set"))
+    # the same content arriving in construction order through a list, pairs, JSON text, append and put
+    a(T("set-of-list", "println(set(L));", "render.set"))
+    a(T("list-of-set-of-list", "println(list(set(L)));", "aslist.set"))
+    a(T("spread-set-of-list", "def t = set(L); println([...t]);", "spread.list.set"))
+    a(T("map-of-pairs", "println(map(P));", "render.map"))
+    a(T("keys-of-map-of-pairs", "println([k for k in keys map(P)]);", "compr.map.keys"))
+    a(T("object-of-map-of-pairs", "println(object(map(P)));", "asobject.map"))
+    a(T("json-map", "println(parse_json(J));", "render.map"))
+    a(T("json-map-for", "for k in keys parse_json(J) do println(k); end;", "for.map.keys"))
+    a(T("json-map-spread", "def t = parse_json(J); println([...t]);", "spread.list.map"))
+    a(T("append-loop", "def t = <<>>; for x in L do append(t, x); end; println(t); ", "render.set"))
+    a(T("append-loop-for", "def t = <<>>; for x in L do append(t, x); end; for x in t do println(x); end;", "for.set"))
+    a(T("put-loop", "def t = <<<>>>; for e in P do put(t, e[0], e[1]); end; println(t);", "render.map"))
+    a(T("put-loop-for", "def t = <<<>>>; for e in P do put(t, e[0], e[1]); end; for e in entries t do println(e); end;",
+        "for.map.entries"))
+    a(T("zip-map-pairs", "println(zip_map([e[0] for e in P], [e[1] for e in P]));", "render.map"))
     a(T("list-minus-set", "println(list(S) - <<'zz'>>);", "aslist.set"))
     # ---- spread
     a(T("spread-call-set", "println(f(...S));", "spread.call.set", "spread.call.set"))
@@ -170,6 +186,10 @@ def templates():
         "destr.for.map", "destr.for.map"))
     a(T("destr-for-set-of-pairs", "for [a, b] in <<e for e in entries M>> do println(a + ' ' + b); end;",
         "compr.map.entries+build+for"))
+    a(T("destr-for-entries", "for [k, v] in entries M do println(k + ' ' + v); end;", "for.map.entries", "for.map"))
+    a(T("spread-call-map-stacktrace",
+        "def g(apple = '', cherry = '', fig = '', kiwi = '', lemon = '', mango = '', peach = '', quince = '') "
+        "error 'boom';\ng(...M);", None, solo=True))
     a(T("destr-def-more", "def [a, b, c, d, e, u, v, w, z] = S; println([a, b, c, d, e, u, v, w, z]);",
         "destr.def.set.all", "destr.def.set"))
     # ---- rendering
@@ -302,6 +322,9 @@ class Batch:
             lines.append("def M = <<<" + ", ".join(f"'{KEYW[r - 1]}' => '{VALW[val_of(r) - 101]}'" for r in order) + ">>>;")
             lines.append("def MI = <<<" + ", ".join(f"{r * 10} => '{VALW[val_of(r) - 101]}'" for r in order) + ">>>;")
             lines.append("def MN = <<<" + ", ".join(f"'{KEYW[r - 1]}' => {val_of(r)}" for r in order) + ">>>;")
+            lines.append("def L = [" + ", ".join(f"'{KEYW[r - 1]}'" for r in order) + "];")
+            lines.append("def P = [" + ", ".join(f"['{KEYW[r - 1]}', '{VALW[val_of(r) - 101]}']" for r in order) + "];")
+            lines.append("def J = '{" + ", ".join(f'"{KEYW[r - 1]}": "{VALW[val_of(r) - 101]}"' for r in order) + "}';")
         else:
             pool = MIXED[self.pool]
             lines.append("def S = <<" + ", ".join(pool[r][0] for r in order) + ">>;")
@@ -318,7 +341,7 @@ class Batch:
         return "".join(out)
 
     def solo_of(self, t):
-        return Batch(f"{self.bid}/{t.tid}", [t], self.pool, self.elems, self.orders, self.tokens, self.rankable, True)
+        return Batch(f"{self.bid}/{t.tid}", [t], self.pool, self.elems, self.orders, self.tokens, self.rankable, t.solo)
 
 
 _TOTAL = {}
@@ -511,7 +534,10 @@ def observe(batches, seeds, legacy_seeds):
         for sb in solos:
             for legacy in (False, True):
                 for rk, o in r2.get((sb.bid, legacy), {}).items():
-                    obs.setdefault((sb.ts[0].tid, sb.bid, legacy), {})[rk] = (o[1], o[2], o[0])
+                    sec = split_sections(sb, o).get(sb.ts[0].tid)
+                    if sec is None:                     # not even the marker: the script as a whole failed
+                        sec = (o[1], o[2], o[0])
+                    obs.setdefault((sb.ts[0].tid, sb.bid, legacy), {})[rk] = sec
             owner[(sb.ts[0].tid, sb.bid)] = sb
     for b in batches:
         for t in b.ts:
@@ -648,7 +674,7 @@ def run(run):
     seeds = list(range(8)) if quick else list(range(32))
     legacy_seeds = [0, 5] if quick else list(range(8))
     norders = 3 if quick else 6
-    reps = 1 if quick else 4           # repetitions with other element subsets
+    reps = 1 if quick else 3           # repetitions with other element subsets
     progs = tlc_programs(run)
     ts = templates()
     for t in ts:
